@@ -1,4 +1,5 @@
 import Amgcl.Proofs.SchurExact
+import Amgcl.Proofs.SchurSpmv
 import Amgcl.Proofs.Deflation
 import Amgcl.Proofs.CPRApp
 import Amgcl.Proofs.CPRPass
@@ -19,6 +20,9 @@ Schur pressure correction (`schur_pressure_correction.hpp`), for EVERY pressure 
   applies returns `x` with `K x = f`, for every `adjust_p` setting (the model is the code after fix ce6260a; before it the
   clause failed when `Kpp` had a row without stored diagonal entry, see notes/repro_c18_schur_adjust_p_missing_diag.cpp).
 * `schur2_block_triangular` : `type = 2` solves `S p = f_p`, `Kuu u + Kup p = f_u`.
+* `schur_operator_affine` : the object as the matrix-free operator of the pressure solver: `spmv(α, x, β, y) = β y + α S x`
+  for ALL `α`, `β` (`S x` = what the two theorems above call the operator, `α = 1, β = 0`), every mask / `adjust_p` /
+  `approx_schur`; `schur_operator_residual` : `backend::residual(f, S, x) = f - S x`.
 
 CPR (`cpr.hpp`): `cpr_formula`, `cpr_pressure_matrix` + `cpr_weights` (the pressure matrix is the first-row-of-inverse-
 diagonal-block weighting of `A`), `cpr_partial_update_noop` (scalar input, sorted rows), `cpr_scalar_eq_block`.
@@ -162,6 +166,40 @@ example : ∃ x, (init 1 (C18Ex.prmT 2) C18Ex.A2 C18Ex.pm2).apply C18Ex.U2 C18Ex
   let ⟨x, hx, _⟩ := schur2_block_triangular 1 (C18Ex.prmT 2) C18Ex.A2 C18Ex.pm2 C18Ex.A2_ok.1 C18Ex.A2_ok.2.1
     C18Ex.A2_ok.2.2 rfl C18Ex.U2 C18Ex.P2 (C18Ex.hU2 2) (C18Ex.hP2 2) #[1, 2]
   ⟨x, hx⟩
+
+/-- **the object is one linear operator for every coefficient pair**: for every mask, `adjust_p`, `approx_schur`, inner
+solver `U` and ALL `α`, `β`, `x`, `y`, `spmv(α, x, β, y) = β y + α S x`, where `S x = spmv(1, x, 0, z)` is the operator that
+`schur1_exact` / `schur2_block_triangular` (and the pressure solver's Krylov products) see — in particular the kept
+`adjust_p = 1` correction `Ld` re-enters with the coefficient `α`. -/
+theorem schur_operator_affine (nt : Nat) (prm : Params) (A : CRS K) (pm : Array Bool) (hA : A.WF)
+    (hn : A.nrows = pm.size) (hc : A.ncols = pm.size) (U : Vec K → Vec K) (α β : K) (x y z : Vec K) :
+    toV (cls pm true).length ((init nt prm A pm).spmv U α x β y)
+      = β • toV (cls pm true).length y
+        + α • toV (cls pm true).length ((init nt prm A pm).spmv U 1 x 0 z) :=
+  init_spmv_affine nt prm A pm hA hn hc U α β x y z
+
+/-- **the residual a pressure solver evaluates on the object** (`backend::residual`, i.e. `spmv` with `α = -1`, `β = 1`
+on a copy of `f`) is `f - S x` for the same operator `S` -/
+theorem schur_operator_residual (nt : Nat) (prm : Params) (A : CRS K) (pm : Array Bool) (hA : A.WF)
+    (hn : A.nrows = pm.size) (hc : A.ncols = pm.size) (U : Vec K → Vec K) (f x z : Vec K)
+    (hf : f.size = (cls pm true).length) :
+    toV (cls pm true).length ((init nt prm A pm).residual U f x)
+      = toV (cls pm true).length f - toV (cls pm true).length ((init nt prm A pm).spmv U 1 x 0 z) :=
+  init_residual nt prm A pm hA hn hc U f x z hf
+
+-- non-vacuity: `K = [2 1; 1 3]`, mask `[u, p]`, `adjust_p = 1` with the non-zero kept correction `Ld = (1/2)`
+-- (`C18Ex.hLd`): `S = 5/2`, so `spmv(-1, (2), 1, (7)) = (2)` and `residual((7), S, (2)) = (2)`
+example : toV (cls C18Ex.pm2 true).length ((init 1 (C18Ex.prmT 1) C18Ex.A2 C18Ex.pm2).spmv C18Ex.U2 (-1) #[2] 1 #[7])
+    = (1 : ℚ) • toV (cls C18Ex.pm2 true).length #[7]
+      + (-1 : ℚ) • toV (cls C18Ex.pm2 true).length ((init 1 (C18Ex.prmT 1) C18Ex.A2 C18Ex.pm2).spmv C18Ex.U2 1 #[2] 0 #[]) :=
+  schur_operator_affine 1 (C18Ex.prmT 1) C18Ex.A2 C18Ex.pm2 C18Ex.A2_ok.1 C18Ex.A2_ok.2.1 C18Ex.A2_ok.2.2 C18Ex.U2 (-1) 1
+    #[2] #[7] #[]
+example : (init 1 (C18Ex.prmT 1) C18Ex.A2 C18Ex.pm2).residual C18Ex.U2 #[7] #[2] = #[2] := by decide +kernel
+example : toV (cls C18Ex.pm2 true).length ((init 1 (C18Ex.prmT 1) C18Ex.A2 C18Ex.pm2).residual C18Ex.U2 #[7] #[2])
+    = toV (cls C18Ex.pm2 true).length #[7]
+      - toV (cls C18Ex.pm2 true).length ((init 1 (C18Ex.prmT 1) C18Ex.A2 C18Ex.pm2).spmv C18Ex.U2 1 #[2] 0 #[]) :=
+  schur_operator_residual 1 (C18Ex.prmT 1) C18Ex.A2 C18Ex.pm2 C18Ex.A2_ok.1 C18Ex.A2_ok.2.1 C18Ex.A2_ok.2.2 C18Ex.U2
+    #[7] #[2] #[] C18Ex.cls2.2
 
 end schur
 
